@@ -231,11 +231,14 @@ func runC37(c *Ctx) {
 	// shared C03.R1 for EFOS creation
 	lock, unlock, _ := dbMuMatchers(c, "C03.R1")
 	if fn := c.Fn("C03.R1", "p.(*DB).makeEventuallyFileOnlySnapshot"); fn != nil {
+		seqLoad := snapshotSeqNumLoads(fn) // in fn itself, or (by callee summary: on every path of) a closure it calls
 		fl := NewFlow(c.P).After("held:DB.mu", lock).KillAfter("held:DB.mu", unlock).
-			After("seqnum-read-in-this-region", Reaching(MethodOn("Load", "visibleSeqNum"), 2)).
-			KillAfter("seqnum-read-in-this-region", unlock)
+			After("seqnum-read-in-this-region", seqLoad).
+			KillAfter("seqnum-read-in-this-region", Or(unlock, CallTo("sync.(*Cond).Wait"))) // Wait releases DB.mu while it blocks
 		res := fl.Analyze(fn, emptyState())
-		c.Require("C03.R1", res, Reaching(MethodOn("Load", "visibleSeqNum"), 2), "snapshot seqnum read under DB.mu", []string{"held:DB.mu"})
+		if n := c.Require("C03.R1", res, seqLoad, "snapshot seqnum read under DB.mu", []string{"held:DB.mu"}); n == 0 {
+			c.Unresolved("C03.R1", "the load that becomes the EFOS's seqnum was not found in makeEventuallyFileOnlySnapshot")
+		}
 		c.Require("C03.R1", res, Or(CallTo("p.(*snapshotList).pushBack"), CallTo("man.(*Version).Ref")), "snapshot registered in the same DB.mu region in which its seqnum was read", []string{"held:DB.mu", "seqnum-read-in-this-region"})
 	}
 }
